@@ -27,6 +27,7 @@ var atomicReaders = map[string]bool{"Load": true}
 // sync/atomic methods on the field, and escapes of the field's address to anything
 // other than a read.
 func (p *Prog) FieldWrites(pkg, typ, field string) []FieldWrite {
+	field = ResolveField(pkg, typ, field)
 	k := fieldKey{pkg, typ, field}
 	if p.writers == nil {
 		p.writers = map[fieldKey][]FieldWrite{}
@@ -149,7 +150,7 @@ func (p *Prog) HasField(pkg, typ, field string) bool {
 		return false
 	}
 	for i := 0; i < st.NumFields(); i++ {
-		if st.Field(i).Name() == field {
+		if st.Field(i).Name() == ResolveField(pkg, typ, field) {
 			return true
 		}
 	}
